@@ -10,9 +10,14 @@ C06 — Hidden-surface removal is independent of submission order.
                              that need no clipping painter = z-buffer as whole `render` calls
                              (`render_painter_unclipped_partial`), and for ALL scenes on a perspective image — clipped pieces
                              included — `render_painter` (`Retro.Props.C06.PainterClip`)
+  `Retro.Props.C06.ZbufF32` : the per-pixel fold on IEEE binary32 BIT PATTERNS (depth test = `F32.lt`, no arithmetic, hence exact):
+                             `lt_b32_strict_total`, `zbuf_perm_f32` (no NaN hypothesis: NaN depths are no-ops of the fold),
+                             `zbuf_nearest_f32`, `zbuf_nearest_f32_val`, `nan_fragment_dropped`, `nan_depth_freezes_pixel`,
+                             sharpness `signed_zero_tie_breaks_order` (+0/−0 is a tie), `nan_fragment_invisible`
 -/
 import Retro.Props.C06.Pixel
 import Retro.Props.C06.Buffer
 import Retro.Props.C06.Painter
 import Retro.Props.C06.PainterScene
 import Retro.Props.C06.PainterClip
+import Retro.Props.C06.ZbufF32
